@@ -161,7 +161,7 @@ class Ref:
         while changed:
             changed = False
             for r in self.rules.values():
-                if r.name not in nul and self._nullable(r.exp, nul):
+                if r.name not in nul and self._nullable(self.rhs(r), nul):
                     nul.add(r.name)
                     changed = True
         return nul
@@ -219,7 +219,7 @@ class Ref:
         """rule name -> frozenset of the rules in its left-recursive SCC (only
         for rules on a left cycle)."""
         nul = self._nullable_rules()
-        graph = {n: {c for c in self._left_calls(r.exp, nul) if c in self.rules} for n, r in self.rules.items()}
+        graph = {n: {c for c in self._left_calls(self.rhs(r), nul) if c in self.rules} for n, r in self.rules.items()}
         reach = {n: set(s) for n, s in graph.items()}
         changed = True
         while changed:
@@ -343,7 +343,7 @@ class Ref:
                 return None
             return (r[0], [r[1]], [])
         if k == 'inc':
-            return self.eval(self.rules[e[1]].exp, p, sc)
+            return self.eval(self.rhs(self.rules[e[1]]), p, sc)
         if k in ('named', 'nlist'):
             r = self.eval(e[2], p, sc)
             if r is None:
@@ -452,7 +452,7 @@ class Ref:
         rule the parse enters the cycle through)."""
         scc = self.lr_cycle_members[name]
         nul = self._nullable_rules()
-        graph = {n: {c for c in self._left_calls(self.rules[n].exp, nul) if c in scc} for n in scc}
+        graph = {n: {c for c in self._left_calls(self.rhs(self.rules[n]), nul) if c in scc} for n in scc}
 
         def cyclic(nodes):
             for s0 in nodes:
@@ -493,12 +493,15 @@ class Ref:
         finally:
             del self.lr_heads[key]
 
+    def rhs(self, rule: Rule):
+        """The right hand side a rule parses: for a based rule, that of its base followed by its own (docs: b < a: x  ==  b: >a x)."""
+        if rule.base:
+            return ('seq', self.rhs(self.rules[rule.base]), rule.exp)
+        return rule.exp
+
     def rule_body(self, rule: Rule, q: int):
         self.tick()
-        exp = rule.exp
-        if rule.base:
-            base = self.rules[rule.base]
-            exp = ('seq', base.exp, rule.exp)
+        exp = self.rhs(rule)
         sc = Scope()
         r = self.eval(exp, q, sc)
         if r is None:
